@@ -282,6 +282,12 @@ def do_case(case):
             for (o, c) in (('', ''), ('[', ']'), ('(', ')')):
                 forms.append('%srgb(%s%s,%s,%s%s)' % (pfx, o, fr, fg_, fb, c))
             forms.append('%srgb( %s , %s ,  %s )' % (pfx, fr, fg_, fb))
+        # long spellings of one component at a time (four and more digits: zero-padded, or simply large)
+        for pos in range(3):
+            for wide in ('%04d', '0x%04X', '%06d'):
+                comp3 = [str(r), str(g), str(b)]
+                comp3[pos] = wide % (r, g, b)[pos]
+                forms.append('%srgb(%s,%s,%s)' % (pfx, comp3[0], comp3[1], comp3[2]))
         fn = getattr(AnsiFormat, (pfx or 'fg_') + 'rgb')
         forms.append(fn(r, g, b))
         forms.append([fn(r, g, b)])
@@ -364,10 +370,13 @@ def run_task(task, acc):
         cases = [{'kind': 'code', 'code': c} for c in range(256)]
     elif k == 'rgb':
         pfx = task['pfx']
-        vals = [0, 1, 127, 255, 256, 300]
+        vals = [0, 1, 127, 255, 256, 300, 1000, 0x1000]
         for r, g, b in itertools.product(vals, repeat=3):
             if tier == 'quick' and len({r, g, b} & {256, 300}) == 0 and len({r, g, b}) == 3 and 127 in (r, g, b):
                 pass
+            big = [x for x in (r, g, b) if x >= 1000]
+            if big and (len(big) > 1 or any(x not in (0, 255) for x in (r, g, b) if x < 1000)):
+                continue          # four-digit values: one component at a time, next to the edge values
             cases.append({'kind': 'rgb3', 'pfx': pfx, 'r': r, 'g': g, 'b': b})
         for v in (0, 1, 255, 256, 0x010203, 0xFF00FF, 0xFFFFFF, 0x00FF00, 0x800000):
             cases.append({'kind': 'rgb1', 'pfx': pfx, 'v': v})
